@@ -442,6 +442,27 @@ func genC16(c *Ctx) {
 		}
 		c.mark("delim" + hx(raw[:60]))
 	}
+	// compact shares whose first unit declares a length within 10 of 2^64 (a length check that adds the prefix
+	// length wraps around), for both compact namespaces, as first and as continuation share
+	for _, ln := range []uint64{1<<64 - 1, 1<<64 - 2, 1<<64 - 4, 1<<64 - 10, 1<<64 - 11, 1 << 63, 1<<63 - 1} {
+		for _, ns := range [][]byte{txNs, pfbNs} {
+			for _, start := range []bool{true, false} {
+				sh := append([]byte{}, ns...)
+				if start {
+					sh = append(sh, 1, 0, 0, 0, 100, 0, 0, 0, 38)
+				} else {
+					sh = append(sh, 0, 0, 0, 0, 34)
+				}
+				sh = append(sh, uvarint(ln)...)
+				sh = append(sh, r.Bytes(512-len(sh))...)
+				h := hx(sh)
+				c.add("parsetxs", h)
+				c.add("deconstruct", h)
+				c.add("wrappedpfbs", h)
+				c.count("unit_length_near_2^64")
+			}
+		}
+	}
 	// byte strings
 	for _, b := range protoEdgeCorpus(r) {
 		c.add("btxunmarshal", hx(b))
@@ -548,6 +569,16 @@ func genC19(c *Ctx) {
 			if nw, err := tx.MarshalIndexWrapper(r.Bytes(10), 7, 70000); err == nil {
 				inner = nw
 			}
+		case 4, 5:
+			// the OTHER message's type id inside a blob's data (ASCII text, so that the bytes also happen to
+			// parse as a packed run of small varints): recognition must go by the decoded type id field,
+			// not by what the bytes contain
+			blobs = blobs[:1]
+			blobs[0].ver, blobs[0].signer = 0, nil
+			blobs[0].ns = append(make([]byte, 19), []byte("namespace!")...)
+			blobs[0].data = []byte("ref=INDX-" + strconv.Itoa(r.Intn(10000)) + ";kind=BLOB;amount=17")
+			inner = []byte("memo: INDX or BLOB, plain ascii " + strconv.Itoa(i))
+			c.count("type_id_inside_ascii_blob_data")
 		}
 		specs := make([]string, len(blobs))
 		bl := make([]*share.Blob, len(blobs))
